@@ -30,14 +30,17 @@ Pt(x) == <<x[1], x[2]>>
 
 \* ---- first failing clause of a logged listing observation against a specification state
 NbrMap(o) == [k \in {x[1] : x \in S2(o.nbrs)} |-> S2((CHOOSE x \in S2(o.nbrs) : x[1] = k)[2])]
-ObsClause(o, size, labels, nodes, nbrs(_), allnodes, alledges, bb, pr) ==
+\* linked ("parallel") edges handed to the in-memory map at construction; part of what a pickle must preserve
+ImLinked(e) == LET S == {x \in S2(Runs[tid].imlinked) : <<x[1][1], x[1][2]>> = e} IN
+               IF S = {} THEN {} ELSE {<<y[1], y[2]>> : y \in S2((CHOOSE x \in S : TRUE)[2])}
+ObsClause(o, size, labels, nodes, nbrs(_), allnodes, alledges, bb, pr, linked(_)) ==
   IF o.err # "" THEN "no-exception"
   ELSE IF o.size # size THEN "size"
   ELSE IF S2(o.labels) # labels \/ Len(o.labels) # size THEN "labels"
   ELSE IF \E x \in S2(o.coords) : x[1] \notin labels \/ Pt(<<x[2], x[3]>>) # nodes[x[1]] THEN "node_coordinates"
   ELSE IF {x[1] : x \in S2(o.coords)} # labels THEN "node_coordinates-missing"
   ELSE IF \E n \in labels : n \notin DOMAIN NbrMap(o) \/ NbrMap(o)[n] # nbrs(n) THEN "nodes_nbrto"
-  ELSE IF \E x \in S2(o.enbrs) : S2(x[3]) # {<<x[2], y>> : y \in nbrs(x[2])} THEN "edges_nbrto"
+  ELSE IF \E x \in S2(o.enbrs) : S2(x[3]) # {<<x[2], y>> : y \in nbrs(x[2])} \cup linked(<<x[1], x[2]>>) THEN "edges_nbrto"
   ELSE IF S2(o.allnodes) # allnodes \/ Len(o.allnodes) # Cardinality(allnodes) THEN "all_nodes"
   ELSE IF {Pt(x) : x \in S2(o.alledges)} # alledges \/ Len(o.alledges) # Cardinality(alledges) THEN "all_edges"
   ELSE IF o.bb # bb THEN "bb"
@@ -50,10 +53,11 @@ PropsClause(o, pr) ==
   ELSE "ok"
 
 SqClause(o) == ObsClause(o, SqSize(w'), SqLabels(w'), w'.nodes, LAMBDA n : SqNbrs(w', n),
-                         SqAllNodes(w'), SqAllEdges(w'), SqBB(w'), props')
+                         SqAllNodes(w'), SqAllEdges(w'), SqBB(w'), props', LAMBDA e : {})
 ImClause(o) == ObsClause(o, Cardinality(DOMAIN im'.nodes), DOMAIN im'.nodes, im'.nodes,
                          LAMBDA n : {e[2] : e \in {e \in im'.edges : e[1] = n}} \cup {n},
-                         DOMAIN im'.nodes, im'.edges, BBOf(im', DOMAIN im'.nodes), props')
+                         DOMAIN im'.nodes, im'.edges, BBOf(im', DOMAIN im'.nodes), props',
+                         LAMBDA e : {f \in ImLinked(e) : f[1] \in DOMAIN im'.nodes /\ f[2] \in DOMAIN im'.nodes})
 
 \* ---- spatial query clauses
 AbsV(x) == IF x < 0 THEN -x ELSE x
